@@ -964,7 +964,7 @@ pub fn run_c10(cfg: &Config) -> i32 {
 	}
 	let seed = cfg.seed;
 	// every shard runs at least one case of each family: fewer shards under the interpreter
-	let shards = if cfg!(miri) { 6usize } else { 64usize };
+	let shards = if cfg!(miri) { 2usize } else { 64usize };
 	let n = cfg.budget(150_000, 4_000_000);
 	let rep = parallel(cfg.threads, shards, |i| {
 		let mut rep = Report::new();
@@ -998,7 +998,8 @@ pub fn run_c10(cfg: &Config) -> i32 {
 			c10_edit_sequences(&mut rep, &mut rng, "C10");
 			if k % 64 == 0 {
 				// depth 100..200: every level holds non-canonical numbers and keys out of order
-				let depth = rng.range(100, 200);
+				// (under the interpreter: 10..20 levels, the reference rendering of hundreds of numbers is too slow there)
+				let depth = if cfg!(miri) { rng.range(10, 20) } else { rng.range(100, 200) };
 				let inner = gen_ijson(&mut rng, 3);
 				let r = deep_wrap(&mut rng, inner, depth);
 				rep.max("deepest_canonicalized_nesting", depth as u64);
